@@ -109,13 +109,13 @@ CHECKS = {
     "C05": dict(
         level="model_checking",
         text="Rules.tla models one application attempt of one shipped rewrite rule to one host model as the steps of try_rewrite (Match incl. literal "
-             "tolerance and removability, Check = the rule's side condition, Rewrite, Replace) for 25 rule families (51 of the 53 exported names of "
+             "tolerance and removability, Check = the rule's side condition, Rewrite, Replace) for 26 rule families (all 53 exported names of "
              "rules.common) over parameter tuples (shapes incl. [1], [1,1], rank extension, symbolic/unknown dims, bounds in every order, attributes at "
              "non-default values, constants as initializer/Constant/graph input, opset); both sides are evaluated exactly on Tensor.tla (integer MatMul, "
              "Gemm, Conv, Pad, ScatterND, BatchNorm, Cast, Clip); invariants Sound / NoFireOnUnknown on the design, DeviationsExplain on the "
              "implementation model. Every tuple becomes a real model; RewriteRuleSet([rule]).apply_to_model from the real code; fired/raised vs the "
              "model; onnx.checker and ORT before vs after (dtype, shape, exact values) on two feeds.",
-        note="float-kernel families (hardswish, qlinear conv bias, rules.fusion.*) are not covered; Conv is 1-D with <=2 channels; one integer-valued "
+        note="rules.fusion.* (float-kernel normalisation / attention fusions) are not covered; the hardswish family is judged up to the round-off of the HardSigmoid / HardSwish kernels; Conv is 1-D with <=2 channels; one integer-valued "
              "tensor per host plus a second feed changing overridable operands",
         technique="TLA+ Lhs/Cond/Rhs model per rule with exact integer tensor semantics, TLC exhaustive over parameter tuples, each tuple replayed through the real rule + ORT",
         design_ref="DESIGN.md section 4 C05, Appendix C",
